@@ -795,6 +795,48 @@ func runConn(c *mon.Case, r *mon.Run, p params) {
 		good = judge("end")
 	}
 
+	// closing phase: one side writes a last piece and its connection ends (a
+	// half-close on the wire) while that piece is still in flight, so that the
+	// reader's last network read brings the end of the stream right behind the
+	// data or — as an io.Reader may — together with it.  Everything written
+	// must be delivered before the reader's Read reports the end.
+	if good {
+		upward := p.seed&1 == 0
+		if p.pairing == pairRefServer {
+			upward = false
+		} else if p.pairing == pairRefClient {
+			upward = true
+		}
+		wconn, st, ds, half, name := cc, cStream, &up, c2s, "up"
+		if !upward {
+			wconn, st, ds, half, name = sc, sStream, &down, s2c, "down"
+		}
+		withData := p.seed&2 != 0
+		half.Pause(true)
+		writeOne(wconn, st, 1+rng.IntN(3000), ds) // (below the smallest wire window: the wire is held)
+		half.SetErrWithData(withData)
+		half.CloseWrite()
+		half.Pause(false)
+		synctest.Wait()
+		mu.Lock()
+		e := *ds
+		mu.Unlock()
+		r.Count("closing_phases", 1)
+		if withData {
+			r.Count("closing_phases_end_reported_with_last_data", 1)
+		}
+		switch {
+		case e.mismatch >= 0:
+			viol("stream/mismatch-in-the-last-bytes-before-the-end/"+name, "byte at offset %d delivered to the reader is not the byte the peer's application wrote there (the connection ended right behind the last piece; end reported together with data: %v)", e.mismatch, withData)
+		case e.readErr == nil:
+			viol("stream/end-not-reported/"+name, "the peer's connection ended after %d bytes but Read has not reported it at quiescence (%d delivered)", e.written, e.delivered)
+		case e.delivered != e.written:
+			viol("stream/lost-at-end/"+name, "%d bytes were written before the connection ended, Read reported the end (%v) after delivering %d (end reported together with data: %v)", e.written, e.readErr, e.delivered, withData)
+		default:
+			r.Count("closing_phases_all_delivered_before_the_end", 1)
+		}
+	}
+
 	// ---- observations that need the reference's knowledge of the secret
 	mu.Lock()
 	u, d := up, down
